@@ -3,13 +3,11 @@
   segments (`lvl`), what `_strip` returns, and that `select` / body instantiation keep nesting.
 -/
 import Genshi.Lemmas.Match
+import Genshi.Model.MatchSpec
 namespace Genshi.Match
 open Genshi
 
 variable {σ : Type}
-
-/-- an open element: the tag and attributes of its START event -/
-abbrev Open := QName × AttrList
 
 /-- the stack of open START events after a list of events; `none` on an END that closes nothing
     or the wrong tag -/
